@@ -1,8 +1,13 @@
 (** C05 — Game results: repetition, fifty-move, insufficient material, mate and stalemate.
     A game is played on a heap board (Model/Board.v) from [new_board z [] pos turn np fm] for a legal
-    start position, any set-up clock and move number and ANY key table with zt_ok, by successive
-    successful pushes of pseudo-legal moves ([played ms h b]); [sg ms] is the specification game
-    (Spec/Game.v) after the same moves.  Proofs in Lemmas/GameLemmas1-8.v. *)
+    start position, any set-up clock 0 <= np <= max_int (= math.MaxInt = 2^63 - 1: every value a Go [int]
+    accepted by fen.Decode / NewBoard can take), any move number and ANY key table with zt_ok, by
+    successive successful pushes of pseudo-legal moves ([played ms h b]), of ANY length; [sg ms] is the
+    specification game (Spec/Game.v) after the same moves.
+    The half-move clock of the board saturates at max_int (updateNoProgress); the clock of the
+    specification game is an unbounded integer.  The refinement relation is
+    [Z.of_N (b_noprogress h b) = Z.min (g_clock g) (Z.of_N max_int)] ([clk_rel], [clock_refines]).
+    Proofs in Lemmas/GameLemmas1-8.v. *)
 From Coq Require Import NArith ZArith List Bool.
 From Morlock.Model Require Import Bits Attacks Move Position Zobrist Board Abs.
 From Morlock.Spec Require Import Chess Game.
@@ -29,10 +34,30 @@ Check @push_reason.
 (** the ingredients *)
 Definition C05_hash_consistent := @hash_consistent.       (* every history node carries the scratch hash *)
 Definition C05_rep_map_counts := @rep_map_counts.         (* repetition map = number of nodes per hash *)
+(** the next two carry the premise [b_unsat h b]: the clock is below saturation ([b_noprogress h b < max_int])
+    or the history has at most max_int + 1 nodes (true of every game of at most 2^63 - 1 moves:
+    [unsat_of_length], [ipc_counts_len]).  The results reported ([drawn_iff], [push_refines],
+    [played_result_exact]) do NOT depend on it: with a saturated clock the fifty-move rule overwrites
+    whatever the recount said. *)
 Definition C05_window_complete := @window_complete.       (* no equal position beyond the clock window *)
+Check @window_complete.
 Definition C05_ipc_counts := @ipc_counts.                 (* exact recount = occurrences of the spec *)
 Check @ipc_counts.
 Print Assumptions ipc_counts.
+Definition C05_ipc_counts_len := @ipc_counts_len.
+Check @ipc_counts_len.
+
+(** the clock of the board is the specification's clock capped at max_int, never exceeds max_int, and the
+    fifty-move test reads the same on both sides; at or beyond the limit the board reports a draw *)
+Definition C05_clock_refines := @clock_refines.
+Check @clock_refines.
+Print Assumptions clock_refines.
+Definition C05_saturated_clock_still_draws := @saturated_clock_still_draws.
+Check @saturated_clock_still_draws.
+Print Assumptions saturated_clock_still_draws.
+Definition C05_played_result_exact := @played_result_exact.
+Check @played_result_exact.
+Print Assumptions played_result_exact.
 
 (** irreversible moves separate: the potential never increases and strictly decreases on every
     capture / pawn move, so the clock-bounded walk sees every earlier occurrence *)
@@ -49,7 +74,7 @@ Definition C05_adjudicate_spec := @adjudicate_spec.
 Check @adjudicate_spec.
 Print Assumptions adjudicate_spec.
 
-(** half-move clock = half-moves since the last pawn move or capture (also C14) *)
+(** half-move clock = half-moves since the last pawn move or capture, saturating at max_int (also C14) *)
 Definition C05_clock_spec := @clock_spec.
 Check @clock_spec.
 
@@ -58,8 +83,16 @@ Definition C05_fork_game := @fork_game.
 Check @fork_game.
 Print Assumptions fork_game.
 
-(** non-vacuity and the three repaired defects *)
+(** non-vacuity and the repaired defects *)
 Check threefold_game.
 Check legacy_window_misses_threefold.
 Check legacy_castling_resets_clock.
 Check legacy_mask_wrong.
+(** the clock at the top of the Go int range (FEN 4k3/8/8/8/8/8/8/4K2R w - - 9223372036854775807 1): the
+    saturating counter keeps the draw, the wrapping counter of the snapshot loses it *)
+Check clock_saturates_example.
+Check clock_saturates_game.
+Check clock_wrap_legacy_refuted.
+Check wrap64_not_drawn_when_due.
+Print Assumptions clock_saturates_example.
+Print Assumptions clock_wrap_legacy_refuted.
